@@ -366,7 +366,17 @@ func (ex *Ex) tr(env *Env, e *Expr) (SV, error) {
 		n.st = env.old
 		// evaluation in the old state must not pollute it
 		n.st = env.old.Clone()
-		return ex.tr(n, e.Args[0])
+		v, err := ex.tr(n, e.Args[0])
+		if err != nil {
+			return SV{}, err
+		}
+		// a map denotes its content *in the old state*
+		if v.T != nil && v.Ty.G != nil && !v.Ty.MapVal {
+			if _, isMap := v.Ty.G.Underlying().(*types.Map); isMap {
+				return ex.derefMap(n, v), nil
+			}
+		}
+		return v, nil
 	case "unop":
 		a, err := ex.tr(env, e.Args[0])
 		if err != nil {
@@ -887,6 +897,9 @@ func (ex *Ex) trCall(env *Env, e *Expr) (SV, error) {
 		}
 		lv := ex.loadFrom(env.fr, env.st, Val{T: a.T}, p.Elem(), nil)
 		return SV{T: lv.T, Ty: SType{G: p.Elem()}}, nil
+	case "ref":
+		// the reference itself (maps otherwise denote their content under old())
+		return SV{T: args[0].T, Ty: SType{G: types.Typ[types.UnsafePointer]}}, nil
 	case "fresh":
 		return SV{T: Not(App("alloc0", SBool, args[0].T)), Ty: tBool}, nil
 	case "ifaceOf":
